@@ -910,3 +910,13 @@ Lemma call_op_seq l c lc (s : RwLock.store K PfxTable.table) :
   seq_op Keqb (call_op l c) lc s = (lc ++ [call_result c (s l)], upd Keqb s l (call_effect c (s l))).
 Proof. destruct c; reflexivity. Qed.
 End PfxCalls.
+
+Lemma pfx_calls_spec : forall (K : Type) (Keqb : K -> K -> bool) l (c : pfx_call) lc (s : RwLock.store K PfxTable.table),
+  op_ok (call_op K l c) = true /\
+  seq_op Keqb (call_op K l c) lc s = (lc ++ [call_result c (s l)], upd Keqb s l (call_effect c (s l))) /\
+  (forall v6 asn q qlen, call_result (CValidate v6 asn q qlen) = (fun T => RValidated (PfxTable.tvalidate T v6 asn q qlen))) /\
+  (forall r, call_effect (CAdd r) = (fun T => fst (fst (PfxTable.tadd T r)))) /\
+  (forall r, call_effect (CRemove r) = (fun T => fst (fst (PfxTable.tremove T r)))).
+Proof.
+  intros. split; [apply call_op_ok|]. split; [apply call_op_seq|]. repeat split.
+Qed.
